@@ -95,6 +95,9 @@ pub enum WOp {
     Error(ErrorKind, Vec<u8>),
     NoMoreResults,
     Drop,
+    /// the writer is dropped by a panic that unwinds through the code holding it and is caught by
+    /// the shim (a backend wrapped in catch_unwind): its destructor runs while the thread is panicking
+    DropUnwinding,
 }
 
 impl WOp {
@@ -114,8 +117,17 @@ impl WOp {
             WOp::Error(k, _) => format!("error({})", *k as u16),
             WOp::NoMoreResults => "no_more_results".into(),
             WOp::Drop => "drop".into(),
+            WOp::DropUnwinding => "dropped by an unwinding panic the shim catches".into(),
         }
     }
+}
+
+/// drop `x` while a panic unwinds (resume_unwind does not call the panic hook), and catch the panic
+fn unwind_drop<T>(x: T) {
+    let _ = std::panic::catch_unwind(std::panic::AssertUnwindSafe(move || {
+        let _held = x;
+        std::panic::resume_unwind(Box::new("the backend behind the shim failed"));
+    }));
 }
 
 pub fn val_short(v: &Val) -> String {
@@ -296,6 +308,14 @@ pub fn run_prog<'a, W: Read + Write>(
             (St::Q(q), WOp::NoMoreResults) => q.no_more_results().map(|_| St::Done),
             (St::Q(q), WOp::Drop) => {
                 drop(q);
+                Ok(St::Done)
+            }
+            (St::Q(q), WOp::DropUnwinding) => {
+                unwind_drop(q);
+                Ok(St::Done)
+            }
+            (St::R(r), WOp::DropUnwinding) => {
+                unwind_drop(r);
                 Ok(St::Done)
             }
             (St::R(mut r), WOp::WriteCol(v)) => r.write_col(v).map(|_| St::R(r)),
